@@ -42,8 +42,8 @@ UNIT = Unit(
         Type(FE, "enum", "BinaryOp", slot="expr", derive="Clone, Copy"),
         Type(F, "struct", "StaticallyKnownProvider", slot="expr",
              rewrites=[Rewrite("\tpub query_variable: &'a dyn Fn(&StaticallyKnownVariableQuery) -> bool,\n\tpub query_function: &'a dyn Fn(&StaticallyKnownFunctionQuery) -> bool,\n",
-                               "\tpub _marker: core::marker::PhantomData<&'a u8>,\n", rule="R17",
-                               why="the two `&dyn Fn` call-back fields are dropped from the stand-in (calls through them go to the wrappers)")]),
+                               "\tpub verif_cb_var: VerifCb,\n\tpub verif_cb_fn: VerifCb,\n\tpub _marker: core::marker::PhantomData<&'a u8>,\n", rule="R17",
+                               why="the two `&dyn Fn` call-back fields become opaque tokens (calls through them go to the wrappers, which answer an uninterpreted function of the token and the query)")]),
         Type(F, "struct", "StaticallyKnownVariableQuery", slot="expr"),
         Type(F, "struct", "StaticallyKnownFunctionQuery", slot="expr"),
         Type(F, "struct", "StaticallyKnownLocal", slot="expr"),
